@@ -417,7 +417,101 @@ def r5_select_io(prog, res):
     res.floor("R5.select_member_io_pair", "(writer, kind) pairs of the SELECT emitter", n, 20)
 
 
+def r7_aggregate_null_flag(prog, res):
+    """An aggregate reader decides `_null` itself.  `()` (an empty list) and `$` (unset) are different values and the writers print one or
+    the other from `_null` alone, so every reader method of STEPaggregate and its subclasses that can return a severity taken from the
+    descriptor (the return that a successfully read value takes) must, on every path to that return, have stored a constant in `_null`
+    after its last call of a non-const method of the aggregate (Empty(), AddNode() ... may have set the flag either way; AddNode is only
+    reached when there is an element).  The value stored on the path that saw the closing parenthesis must be `false`."""
+    import pathstate
+    classes = {"STEPaggregate"} | prog.subclasses("STEPaggregate")
+    n = 0
+    cands = []
+    for f in prog.all_functions():
+        if f.component == "test" or f.cfg is None or "::" not in f.name:
+            continue
+        cls = f.name.rsplit("::", 1)[0]
+        if cls not in classes:
+            continue
+        if not any("istream" in (f.tyname(p_["t"]) if isinstance(p_.get("t"), int) else "") for p_ in f.params):
+            continue
+        rt = f.tyname(f.raw.get("ret")) if isinstance(f.raw.get("ret"), int) else ""
+        if "Severity" not in rt:
+            continue
+        cands.append(f)
+    readers = {f.name for f in cands}
+    for f in cands:
+        cls = f.name.rsplit("::", 1)[0]
+        # delegating readers (every return is a call of another reader of the same object) are decided through the callee
+        rets = [r for r in f.walk() if r["k"] == "Return" and r.get("ch") and r["ch"][0] is not None]
+
+        def delegates(r):
+            e = strip(r["ch"][0])
+            while e is not None and e["k"] == "Cast" and e.get("ch"):
+                e = strip(e["ch"][0])
+            if e is None or e["k"] != "Call" or not e.get("member") or not e.get("ch"):
+                return False
+            b = strip(e["ch"][0])
+            while b is not None and b["k"] in ("Cast", "Member") and b.get("ch"):
+                b = strip(b["ch"][0])
+            return b is not None and b["k"] == "This"
+        if rets and all(delegates(r) for r in rets):
+            continue
+        q = cls + "::_null"
+        bad = {}
+        seen_ret = set()
+
+        def on_node(nd, ts, env, q=q, bad=bad, seen_ret=seen_ret, readers=readers):
+            k = nd["k"]
+            if k == "Assign" and nd.get("op", "=") == "=":
+                l = strip(nd["ch"][0])
+                if l is not None and l["k"] == "Member" and (l.get("q") or "").endswith("::_null") and l.get("ch") and \
+                        strip(l["ch"][0]) is not None and strip(l["ch"][0])["k"] in ("This", "Cast"):
+                    v = strip(nd["ch"][1])
+                    while v is not None and v["k"] == "Cast" and v.get("ch") and "val" not in v:
+                        v = strip(v["ch"][0])
+                    return ("set", v.get("val") if v is not None else None)
+                return ts
+            if k == "Call" and nd.get("member") and nd.get("ch") and not (nd.get("fk") or "").endswith("const"):
+                r = strip(nd["ch"][0])
+                while r is not None and r["k"] == "Cast" and r.get("ch"):
+                    r = strip(r["ch"][0])
+                if r is not None and r["k"] == "This":
+                    if (nd.get("fn") or "") in readers:
+                        return ("set", 0)      # another reader of the same object decided it (checked as its own obligation)
+                    return ("callee", (nd.get("fn") or "?").rsplit("::", 1)[-1])
+                return ts
+            if k == "Return" and nd.get("ch") and nd["ch"][0] is not None:
+                e = strip(nd["ch"][0])
+                while e is not None and e["k"] == "Cast" and e.get("ch") and "val" not in e:
+                    e = strip(e["ch"][0])
+                if e is not None and isinstance(e.get("val"), int):
+                    return ts          # a constant severity: the early error / unset exits
+                seen_ret.add(nd["i"])
+                if ts[0] != "set" or ts[1] != 0:
+                    bad.setdefault(nd["i"], (nd, ts))
+            return ts
+        try:
+            pathstate.walk(f, ("entry", None), on_node)
+        except pathstate.Budget as ex:
+            res.broke("R7: %s" % ex)
+            continue
+        if not seen_ret:
+            continue
+        n += 1
+        b = sorted(bad.values(), key=lambda h: h[0]["l"])
+        res.add("R7.aggregate_null_flag_decided", "R7|%s|%s" % (f.relfile(), f.name), f.where(b[0][0]) if b else f.where(), not b,
+                "every path to a return of the descriptor's severity stores `_null = false` after the last non-const call on the aggregate"
+                if not b else
+                "a path reaches `return %s` with `_null` %s: an empty aggregate `()` read on that path keeps whatever the flag was, and the "
+                "writer prints `$` for it" % (expr_str(b[0][0]["ch"][0])[:40],
+                                               "last touched by the callee %s()" % b[0][1][1] if b[0][1][0] == "callee" else
+                                               "never assigned in this function" if b[0][1][0] == "entry" else "set to %r" % (b[0][1][1],)))
+    res.floor("R7.aggregate_null_flag_decided", "aggregate readers with a non-constant severity return", n, 3)
+
+
 def run(prog, res, tier):
+    r7_aggregate_null_flag(prog, res)
     r5_select_io(prog, res)
     r1_dispatch(prog, res)
     r2_outparam(prog, res)
